@@ -13,6 +13,15 @@ from sympy.parsing.sympy_parser import auto_number, parse_expr, rationalize
 from unyt._unit_lookup_table import inv_name_alternatives
 from unyt.exceptions import UnitParseError
 
+# parse_unyt_expr rewrites "°" to "deg" before the names are looked up, so the
+# documented names that contain "°" ("kilo°C", ...) arrive here under their
+# rewritten spelling ("kilodegC")
+_rewritten_name_alternatives = {
+    name.replace("°", "deg"): canonical_name
+    for name, canonical_name in inv_name_alternatives.items()
+    if "°" in name
+}
+
 
 def _auto_positive_symbol(tokens, local_dict, global_dict):
     """
@@ -38,9 +47,10 @@ def _auto_positive_symbol(tokens, local_dict, global_dict):
             try:
                 used_name = inv_name_alternatives[str(name)]
             except KeyError:
-                # if we don't know this name it's a user-defined unit name
-                # so we should create a new symbol for it
-                used_name = str(name)
+                # a documented name whose "°" was rewritten to "deg"; else, if we
+                # don't know this name it's a user-defined unit name so we should
+                # create a new symbol for it
+                used_name = _rewritten_name_alternatives.get(str(name), str(name))
 
             result.extend(
                 [
